@@ -6,6 +6,7 @@ open Atomman Atomman.C16
     p43arr atol (h k i l)+ | v43arr atol (u v t w)+   -> 3 rationals per row, or err:value for the whole array
     vc2c hex atol V(9) idx(3|4)          -> 3 rationals
     plane hex atol V(9) idx(3|4 ints)    -> s a(3) b(3) | n(3 rationals, unnormalised)
+    planearr hex atol V(9) w rows…       -> 3 rationals per row (unnormalised normals), or err:value for the whole array
     p2c setting u v w | c2p setting u v w
     reduce ints… | allidx m reduce | fromstr codepoints…
     fam rtol atol a b c alpha beta gamma -> family-or-none + 7 predicate bits
@@ -43,6 +44,12 @@ def showPreds (rtol atol : Rat) (p : CellParams Rat) : String :=
 
 def showFam (rtol atol : Rat) (p : CellParams Rat) : String :=
   famName (identifyFamily rtol atol p) ++ " " ++ showPreds rtol atol p
+
+def chunk (w : Nat) : Nat → List Rat → Rows
+  | 0, _ => []
+  | fuel + 1, xs => if w = 0 ∨ xs.length < w then [] else xs.take w :: chunk w fuel (xs.drop w)
+
+def rowsOf (w : Nat) (xs : List Rat) : Rows := chunk w xs.length xs
 
 def handleC16 (toks : List String) : String :=
   match toks with
@@ -98,6 +105,16 @@ def handleC16 (toks : List String) : String :=
           | .error e => e.toString
       | none => err "format"
     | _, _, _, _ => err "format"
+  | "planearr" :: hex :: gatol :: w :: rest =>
+    -- an ARRAY of planes given as numbers: integer test (numpy default tolerances), guards, then row by row
+    match parseBool? hex, parseRat? gatol, w.toNat?, parseRats? rest with
+    | some hex, some gatol, some w, some xs =>
+      match M3.ofList? (xs.take 9) with
+      | some V =>
+        showE (fun l => showRats (l.flatMap V3.toList))
+          (planeArr BoxObj.defaultRtol BoxObj.defaultAtol gatol hex V (rowsOf w (xs.drop 9)))
+      | none => err "format"
+    | _, _, _, _ => err "format"
   | "p2c" :: setting :: rest =>
     match parseRats? rest with
     | some [u, v, w] => showE showV3 (vectorPrimitiveToConventional (K := Rat) setting ⟨u, v, w⟩)
@@ -127,12 +144,6 @@ def handleC16 (toks : List String) : String :=
   | _ => err "op"
 
 /-! caller-side memory (`Mem Rows`): arrays of index sets the harness holds as real numpy arrays -/
-
-def chunk (w : Nat) : Nat → List Rat → Rows
-  | 0, _ => []
-  | fuel + 1, xs => if w = 0 ∨ xs.length < w then [] else xs.take w :: chunk w fuel (xs.drop w)
-
-def rowsOf (w : Nat) (xs : List Rat) : Rows := chunk w xs.length xs
 
 def showRows (r : Rows) : String :=
   toString (match r with | [] => 0 | x :: _ => x.length) ++ ":" ++ showRats r.flatten
